@@ -188,7 +188,12 @@ class Injector:
         self._orig_fgd = orig_fgd
 
         # F4
-        self._install_lines(MP.single_mcs)
+        self.lines_ok = False
+        try:
+            self._install_lines(MP.single_mcs)
+            self.lines_ok = bool(self.line_targets.get("mcs_results")) and bool(self.line_targets.get("sorted_reactants"))
+        except Exception:  # the record writes are not where the AST search expects them (another implementation)
+            self.line_targets = {}
         self._installed = True
 
     def _install_lines(self, fn):
@@ -245,8 +250,11 @@ class Injector:
         self.GD.SubstructureAnalyzer.identify_optimal_substructure = self._orig_ios
         self.FG.FindMissingGraphs.find_missing_parts_pairs = staticmethod(self._orig_fmp)
         self.MS.find_graph_dict = self._orig_fgd
-        mon = sys.monitoring
-        mon.set_local_events(self._tool, self.MP.single_mcs.__code__, 0)
-        mon.register_callback(self._tool, mon.events.LINE, None)
-        mon.free_tool_id(self._tool)
+        try:
+            mon = sys.monitoring
+            mon.set_local_events(self._tool, self.MP.single_mcs.__code__, 0)
+            mon.register_callback(self._tool, mon.events.LINE, None)
+            mon.free_tool_id(self._tool)
+        except Exception:
+            pass
         self._installed = False
